@@ -1399,3 +1399,34 @@ macro_rules! hash_key_harness {
 hash_key_harness!(u49_hash_key_uniform_len32, 32);
 hash_key_harness!(u49_hash_key_uniform_len33, 33);
 hash_key_harness!(u49_hash_key_uniform_len40, 40);
+
+// ================================================================== U53: validation of an index record never grows the index beyond what the log overlay can hold
+// HashColumn::validate_plan re-launches an index growth when a record names a larger index than the current one (the growth had
+// been triggered in the previous session). The table id is one byte taken from the log before the record's checksum is
+// known: an index size the per-column log overlay has no slot for (>= 64 - MIN_INDEX_BITS) must be rejected, not grown towards.
+pub(crate) fn stub_trigger_reindex_forbidden<'a, 'b>(
+	tables: RwLockUpgradableReadGuard<'a, Tables>,
+	reindex: RwLockUpgradableReadGuard<'b, Reindex>,
+	_path: &std::path::Path,
+) -> (RwLockUpgradableReadGuard<'a, Tables>, RwLockUpgradableReadGuard<'b, Reindex>) {
+	assert!(false, "U53.validate.no_index_growth_towards_a_size_the_log_overlay_cannot_hold");
+	kani::assume(false);
+	(tables, reindex)
+}
+growth_harness!(#[kani::unwind(4)]
+	#[kani::stub(super::HashColumn::trigger_reindex, stub_trigger_reindex_forbidden)]
+	#[kani::stub(crate::log::LogReader::read, crate::log::verif_log::stub_read)]
+	#[kani::stub(crc32fast::Hasher::new, crate::verif_stubs::crc_hasher_new)]
+	u53_validate_rejects_unrepresentable_index_size, {
+	let col = std::mem::ManuallyDrop::new(mk_hash_column(16, false));
+	let bits: u8 = kani::any();
+	kani::assume(bits >= 64 - MIN_INDEX_BITS);
+	let index: u64 = kani::any();
+	let mut reader = std::mem::ManuallyDrop::new(crate::log::verif_log::mk_reader());
+	crate::log::verif_log::reader_reset([0u8; 8], usize::MAX);
+	let action = LogAction::InsertIndex(crate::log::InsertIndexAction { table: IndexTableId::new(0, bits), index });
+	let r = ok(col.validate_plan(action, &mut *reader));
+	assert!(r.is_none(), "U53.validate.index_size_without_a_log_overlay_slot_is_rejected");
+	assert!(col.tables.read().index.id.index_bits() == 16 && col.reindex.read().queue.is_empty(), "U53.validate.rejected_record_leaves_the_index_as_it_was");
+	kani::cover!(r.is_none(), "reached");
+});
